@@ -37,28 +37,53 @@ func one(path string) (res string) {
 	}
 	var sb strings.Builder
 	sb.WriteString("OK")
-	for _, st := range m.Ast.Statements {
-		ds, ok := st.(*ast.DeclStmt)
-		if !ok {
-			continue
-		}
-		fd, ok := ds.Decl.(*ast.FuncDecl)
-		if !ok || ast.IsExternFunc(fd) {
-			continue
-		}
-		att, ok := m.Ast.GetMetadataByKind(fd, annotators.ConstFuncParamMetaKind)
-		sb.WriteString(" " + fd.Name() + ":")
+	bits := func(fd *ast.FuncDecl, tree *ast.Ast) string {
+		att, ok := tree.GetMetadataByKind(fd, annotators.ConstFuncParamMetaKind)
 		if !ok || att == nil {
-			sb.WriteString("?")
-			continue
+			return "?"
 		}
 		meta := att.(annotators.ConstFuncParamMeta)
+		var b strings.Builder
 		for _, p := range fd.Parameters {
 			if meta.IsConst[p.Name.Literal] {
-				sb.WriteString("1")
+				b.WriteString("1")
 			} else {
-				sb.WriteString("0")
+				b.WriteString("0")
 			}
+		}
+		return b.String()
+	}
+	var dump func(mod *ast.Module, prefix string)
+	dump = func(mod *ast.Module, prefix string) {
+		for _, st := range mod.Ast.Statements {
+			ds, ok := st.(*ast.DeclStmt)
+			if !ok {
+				continue
+			}
+			fd, ok := ds.Decl.(*ast.FuncDecl)
+			if !ok || ast.IsExternFunc(fd) {
+				continue
+			}
+			if ast.IsGeneric(fd) {
+				// every instantiation, looked up exactly as compiler.VisitFuncCall does: in the AST of inst.Module()
+				for _, insts := range fd.Generic.Instantiations {
+					for _, inst := range insts {
+						sb.WriteString(" " + prefix + fd.Name() + "@:" + bits(inst, inst.Module().Ast))
+					}
+				}
+				continue
+			}
+			sb.WriteString(" " + prefix + fd.Name() + ":" + bits(fd, mod.Ast))
+		}
+	}
+	dump(m, "")
+	// generic functions of directly imported user modules that this program instantiates
+	for _, imp := range m.Imports {
+		for _, im := range imp.Modules {
+			if im == nil || strings.Contains(im.FileName, "Duden") {
+				continue
+			}
+			dump(im, "import.")
 		}
 	}
 	return sb.String()
